@@ -760,15 +760,27 @@ func (w *ethWorld) afterRecv(tx *ethTx, ok bool, log string, pre, post map[strin
 	heightOK := tx.height <= head && head-tx.height >= w.delay && have
 	// the root a proof has to be checked against is the state root of the header the client follows at that
 	// height (the head's ancestor), whatever the store holds there
-	var root common.Hash
+	var root, stored common.Hash
 	if have {
-		root = common.BytesToHash(c.GetRoot())
+		stored = common.BytesToHash(c.GetRoot())
+		root = stored
 	}
 	for n := w.head; n != nil && have; n = n.parent {
 		if n.h.Number.Uint64() == tx.height {
 			root = n.h.Root
 			break
 		}
+	}
+	// the store holds another header's root at that height (C10's business); proofs are judged against the
+	// followed header all the same, but the verdicts get a class of their own. With competing headers that
+	// share state roots this is the recorded C10 finding (ethRootMain ambiguity) showing through.
+	divergent := ""
+	if have && stored != root {
+		divergent = "stored_root_of_another_header"
+		if w.cfg["same_roots"] == 1 {
+			divergent += "_with_shared_state_roots"
+		}
+		divergent += ":"
 	}
 	proofOK := have && verifyEthProof(root, w.contract, slotFor(tx.pkt.path), tx.pkt.hash, tx.proof)
 	want := heightOK && proofOK
@@ -786,10 +798,10 @@ func (w *ethWorld) afterRecv(tx *ethTx, ok bool, log string, pre, post map[strin
 			if !heightOK {
 				key = "height_or_delay"
 			}
-			w.rec.Violate("C08", "unsound_accept", key+":"+tx.mut, "accepted %s (heightOK=%v proofOK=%v)", tx.desc, heightOK, proofOK)
+			w.rec.Violate("C08", "unsound_accept", divergent+key+":"+tx.mut, "accepted %s (heightOK=%v proofOK=%v)", tx.desc, heightOK, proofOK)
 			// the same acceptance seen from the packet protocol (C02): the counterparty provably stored this packet
 			// hash at a height the installed client vouches for - here it did not
-			w.rec.Violate("C02", "accepted_unproven", key, "accepted %s (heightOK=%v proofOK=%v)", tx.desc, heightOK, proofOK)
+			w.rec.Violate("C02", "accepted_unproven", divergent+key, "accepted %s (heightOK=%v proofOK=%v)", tx.desc, heightOK, proofOK)
 		}
 		return
 	}
@@ -798,6 +810,6 @@ func (w *ethWorld) afterRecv(tx *ethTx, ok bool, log string, pre, post map[strin
 		w.rec.Violate("C08", "reject_unchanged", tx.mut, "rejected receive changed the xibc store: %s", tx.desc)
 	}
 	if want && !tx.pkt.recvOK && !tx.dontCare && !w.clientExpired(now) {
-		w.rec.Violate("C08", "valid_proof_rejected", tx.mut, "rejected although the proof is valid and the height admissible: %s: %s", tx.desc, firstLine(log))
+		w.rec.Violate("C08", "valid_proof_rejected", divergent+tx.mut, "rejected although the proof is valid and the height admissible: %s: %s", tx.desc, firstLine(log))
 	}
 }
